@@ -1,5 +1,5 @@
 """Per-property configuration and the generic runner used by /verif/check."""
-import os, json, time, glob, hashlib, shutil, subprocess, re, concurrent.futures as cf
+import os, json, time, glob, hashlib, shutil, subprocess, re, tempfile, concurrent.futures as cf
 
 NCPU = os.cpu_count() or 4
 
@@ -232,6 +232,24 @@ PROPS = {
              "on absent level streams) present/absent. Oracle: generated reader returns the logical content with Error()==nil and Rows() right. Non-trivial: a bit-packed run > 63 groups, an RLE "
              "run whose length is not a multiple of 8, page splits that differ between two columns, mixed codecs, or a hand-rolled snappy body; distinct by case hash.",
     ),
+    "C18": dict(
+        level="exploration",
+        technique="property-based testing (rapid): valid foreign files with exactly one injected unsupported feature at a generated position; oracle = the reader must refuse",
+        level_text="Exploration: conformant files from the independent writer with one genuinely encoded unsupported feature (dictionary / index / v2 page, non-PLAIN value encoding, "
+                   "legacy BIT_PACKED levels, foreign codec) at a drawn row group / column / page; the generated reader must report an error, never complete normally, never panic.",
+        level_note="Trusted: pqref's encoders for the unsupported features (dictionary + RLE_DICTIONARY indices, DATA_PAGE_V2 layout, BYTE_STREAM_SPLIT, RLE booleans, DELTA_BINARY_PACKED, "
+                   "DELTA_LENGTH_BYTE_ARRAY, DELTA_BYTE_ARRAY, MSB-first BIT_PACKED levels); for foreign codecs the body bytes are arbitrary because no such compressor exists offline - "
+                   "rejection must come from metadata. The unmodified base file must read correctly, otherwise the case is discarded and counted.",
+        fixtures=["flat24", "nest"],
+        gen_anchored=True,
+        stages=[dict(test="TestC18", kind="rapid", quick=3200, thorough=64000)],
+        replay="TestReplayC18",
+        rule="rapid: 1..3 row groups of 1..50 records on flat24/nest, conservative base encoding with drawn page splits and codec; one injection of kind in {dict-plain, dict-rle, index-page, "
+             "v2, enc-bss (float/double), enc-rle-bool, enc-delta-binary (ints), enc-delta-length, enc-delta-bytearray (strings), lvl-bitpacked-def, lvl-bitpacked-rep (columns with such levels), "
+             "codec-lzo/brotli/lz4/zstd/lz4raw} at a drawn (row group, applicable column, page); value-encoding kinds are placed on a page with at least one non-null value. Oracle: constructor "
+             "error or Error()!=nil after the README loop; completing with nil error or panicking is a violation. Non-trivial: the feature sits in a non-first column, page or row group; distinct by case hash; "
+             "class_histogram shows the kinds.",
+    ),
 }
 
 
@@ -284,17 +302,50 @@ def prepare(D, pid, cfg, W, race=False):
     return None
 
 
+MEM_LIMIT_KB = int(os.environ.get("VERIF_MEM_LIMIT_MB", "4096")) * 1024
+
+
+def _rss_kb(pid):
+    try:
+        for line in open("/proc/%d/status" % pid):
+            if line.startswith("VmRSS:"):
+                return int(line.split()[1])
+    except Exception:
+        pass
+    return 0
+
+
 def run_shard(binpath, cwd, env, args, timeout):
+    """Run one test process with a wall-clock limit and a resident-memory guard.
+    rc -9 = timeout, rc -99 = memory guard (both are 'inconclusive' for the caller)."""
     e = dict(os.environ)
     e.update(env)
-    try:
-        p = subprocess.run([binpath] + args, cwd=cwd, env=e, timeout=timeout, stdout=subprocess.PIPE, stderr=subprocess.STDOUT, text=True, errors="replace")
-        return p.returncode, p.stdout
-    except subprocess.TimeoutExpired as ex:
-        out = ex.stdout or b""
-        if isinstance(out, bytes):
-            out = out.decode("utf-8", "replace")
-        return -9, out
+    e.setdefault("GOMEMLIMIT", "3GiB")
+    logf = tempfile.TemporaryFile(mode="w+", errors="replace")
+    p = subprocess.Popen([binpath] + args, cwd=cwd, env=e, stdout=logf, stderr=subprocess.STDOUT)
+    t0 = time.time()
+    rc = None
+    note = ""
+    while True:
+        try:
+            rc = p.wait(timeout=0.5)
+            break
+        except subprocess.TimeoutExpired:
+            pass
+        if time.time() - t0 > timeout:
+            p.kill()
+            p.wait()
+            rc, note = -9, "\n[driver] timeout after %ss" % timeout
+            break
+        if _rss_kb(p.pid) > MEM_LIMIT_KB:
+            p.kill()
+            p.wait()
+            rc, note = -99, "\n[driver] memory guard: resident set exceeded %d MB" % (MEM_LIMIT_KB // 1024)
+            break
+    logf.seek(0)
+    out = logf.read()
+    logf.close()
+    return rc, out + note
 
 
 def run_replay(D, W, test, path, pid, extra_env=None, binname="props.test"):
@@ -397,6 +448,9 @@ def _run(D, pid, cfg, tier, seed, replay, W, t0):
                        "VERIF_KNOWN": os.path.join(D.VERIF, "known_findings.txt")}
                 env.update(cfg.get("env") or {})
                 env.update(st.get("env") or {})
+                for k, v in os.environ.items():
+                    if k.startswith("VERIF_C") or k == "VERIF_MAXRECS":
+                        env[k] = v
                 args = ["-test.run", "^%s$" % st["test"], "-test.timeout", "0"]
                 if st["kind"] == "rapid":
                     args += ["-rapid.checks=%d" % per, "-rapid.seed=%d" % rapid_seed(seed, sh, si), "-rapid.nofailfile",
